@@ -190,9 +190,9 @@ CONFIG = {
             {"name": "c16m", "n": {"quick": 4000, "thorough": 80000}, "trivial": lambda case, ans: not ans.startswith("(err")},
             {"name": "c16p", "n": {"quick": 3000, "thorough": 60000}, "trivial": lambda case, ans: False},
         ],
-        "rule": "c16: the 80 element-level receivers x generated input elements: derive inputs with every struct style with 0..6 fields, enums with 0..6 variants of mixed style and discriminants, unions (mistake mode), generics with lifetimes / types / consts / defaults / where-clauses, 5 visibility forms, 9 field types, type params with bounds and defaults; receivers declare any subset of the magic fields, `data: ast::Data<V, F>` / `fields: ast::Fields<F>` with V, F in {(), syn types, other corpus receivers} or a `with` converter; the implementation's value is serialised member by member (tokens) and compared with the model's mirror of the input; c16m: the same with mistakes inside nested fields / variants (all failures reported, located); c16p: Fields::<syn::Field>::try_from(..).to_token_stream() against the model's rendering of the original fields (white space removed); non-trivial = Ok value (c16) / Err (c16m)",
+        "rule": "c16: the 80 element-level receivers x generated input elements: derive inputs with every struct style with 0..6 fields, enums with 0..6 variants of mixed style and discriminants, unions (mistake mode), generics with lifetimes / types / consts / defaults / where-clauses, 5 visibility forms, 9 field types, type params with bounds and defaults; receivers declare any subset of the magic fields, `data: ast::Data<V, F>` / `fields: ast::Fields<F>` with V, F in {(), syn::Ident / Type / Visibility / Field / Variant, Vec<Attribute>, other corpus receivers plain or inside SpannedValue / WithOriginal} or a `with` converter; `generics` as syn::Generics, ast::Generics<P> (P = syn::GenericParam or ast::GenericParam<T>), optionally inside darling::Result / WithOriginal; the implementation's value is serialised member by member (tokens) and compared with the model's mirror of the input; c16m: the same with mistakes inside nested fields / variants (all failures reported, located); c16p: Fields::<syn::Field>::try_from(..).to_token_stream() against the model's rendering of the original fields (white space removed); non-trivial = Ok value (c16) / Err (c16m)",
         "assumptions": ["tokens are compared as printed by proc-macro2; entry converters are parameters of the theorems"],
-        "partial": "magic members wrapped in SpannedValue / WithOriginal / Result are not in the corpus; spans of magic members are not compared; the per-receiver wiring (which member gets which part) lives in the executable Env layer and is tied by the correspondence, the theorems cover the total functions it calls",
+        "partial": "wrapped members are covered for body entries (SpannedValue<..>, WithOriginal<.., syn::Field|Variant>) and generics (darling::Result<..>, WithOriginal<.., syn::Generics>), not for ident / vis / ty (darling offers no wrapper impls there); spans of plain magic members are not compared; the per-receiver wiring (which member gets which part) lives in the executable Env layer and is tied by the correspondence, the theorems cover the total functions it calls",
     },
     "C07": {
         "lean_modules": ["Darling.Props.C07", "Darling.Props.C07Universe", "Darling.Props.C07Outer"],
